@@ -159,7 +159,7 @@ def exercise(ctx):
             continue
         want = {v.name: v.number for v in epb.value}
         try:
-            have = {m.name: int(m.value) for m in cls}
+            have = {n: int(m.value) for n, m in cls.__members__.items()}      # __members__ includes aliases (allow_alias)
         except Exception as e:
             ctx.violation("enum-unusable", f"{full}: {type(e).__name__}: {e}")
             continue
